@@ -61,7 +61,8 @@ DigitTokens == {"<N>"}                       \* non-ASCII decimal digits (Nd)
 UHyphenTokens == {"<H>"}                     \* non-ASCII characters with the Unicode Hyphen property
 ConnectorTokens == {"<C>"}                   \* non-ASCII connector punctuation (Pc)
 \* hostile classes: combining mark, symbol, space, other number, invalid UTF-8 byte, controls
-OtherTokens == {"<M>", "<S>", "<Z>", "<O>", "<BAD>", "<LF>", "<TAB>", "<NUL>"}
+\* (<D>: dash punctuation WITHOUT the Unicode Hyphen property - em dash, en dash ...: not a hyphen)
+OtherTokens == {"<M>", "<S>", "<Z>", "<O>", "<D>", "<BAD>", "<LF>", "<TAB>", "<NUL>"}
 
 Letters == Lower \cup Upper \cup LetterTokens
 DecimalDigits == Digits \cup DigitTokens
@@ -103,7 +104,7 @@ FirstBad(kind, n) ==
   LET bad == { i \in 1..Len(n) : ClassOf(n[i]) \notin AllowedU(kind) }
   IN  IF bad = {} THEN 0 ELSE CHOOSE i \in bad : \A j \in bad : i <= j
 NonAscii == LetterTokens \cup DigitTokens \cup UHyphenTokens \cup ConnectorTokens
-            \cup {"<M>", "<S>", "<Z>", "<O>"}
+            \cup {"<M>", "<S>", "<Z>", "<O>", "<D>"}
 \* an invalid character preceded by a multi-byte one (byte index # rune index)
 BadAfterMultibyte(kind, n) ==
   LET b == FirstBad(kind, n)
